@@ -86,10 +86,12 @@ def native_partition_replay(model):
     """R1: real batch_indices on concrete sizes incl. non-divisible ones; check disjointness and the number of samples used."""
     for (N, B) in [(33, 5), (7, 3), (10, 4), (5, 2), (12, 4), (9, 9), (8, 3), (14, 5), (29, 6)]:
         buf = RolloutBuffer(jnp.zeros((N, 2)), jnp.zeros((N,)), jnp.zeros((N,)), jnp.zeros((N,), bool), jnp.zeros((N,)), jnp.zeros((N,)), GPState(jnp.zeros((N, 1))))
-        for seed in (0, 1):
-            idx = np.asarray(buf.batch_indices(B, key=jax.random.key(seed)))
+        for seed in (0, 1, None):     # None: the key-less (sequential) path
+            idx = np.asarray(buf.batch_indices(B, key=None if seed is None else jax.random.key(seed)))
             flat = idx.reshape(-1)
             ok = idx.ndim == 2 and idx.shape[1] == B and idx.shape[0] == N // B and len(set(flat.tolist())) == flat.size and flat.min() >= 0 and flat.max() < N
+            if ok and seed is None:
+                ok = flat.tolist() == list(range((N // B) * B))
             if not ok:
                 return dict(reproduced=True, route="R1", inputs=dict(N=N, batch_size=B, key_seed=seed), observed=dict(shape=list(idx.shape), indices=idx.tolist(), expected_rows=N // B))
     return dict(reproduced=False, note="native index groups are disjoint with floor(N/B) rows on the tried sizes")
@@ -109,7 +111,7 @@ def _bi_obligations(S, ctx, buf, out, Nz, Bz, tag, shuffled, hyps):
     S.prove(f"{tag}/pairwise-distinct", ctx, z3.Implies(z3.Or(q != q2, j != j2), e1 != e2), hyps=hyps + rng + ax, function=F_BI, replay=native_partition_replay,
             what="no sample appears in two minibatches (or twice in one) within an epoch")
     if not shuffled:
-        S.prove(f"{tag}/sequential-without-key", ctx, ir.seq(e1, q * ir.zint(Bz) + j), hyps=hyps + rng, function=F_BI, what="key=None: indices are sequential (row-major)")
+        S.prove(f"{tag}/sequential-without-key", ctx, ir.seq(e1, q * ir.zint(Bz) + j), hyps=hyps + rng, function=F_BI, replay=native_partition_replay, what="key=None: indices are sequential (row-major)")
 
 
 def unit_batch_indices(S):
